@@ -177,8 +177,17 @@ def get_arg_defaults(task: "Task", args: tuple, kwargs: dict) -> dict:
     default_kwargs = {}
 
     sig = task.signature
-    for i, param in enumerate(sig.parameters.values()):
-        if i < len(args):
+    num_positional = 0
+    for param in sig.parameters.values():
+        if param.kind in (param.VAR_POSITIONAL, param.VAR_KEYWORD):
+            # Variadic parameters have no defaults.
+            continue
+
+        is_positional = param.kind in (param.POSITIONAL_ONLY, param.POSITIONAL_OR_KEYWORD)
+        if is_positional:
+            num_positional += 1
+
+        if is_positional and num_positional <= len(args):
             # User already specified this arg in args.
             continue
 
